@@ -68,6 +68,8 @@ STR_PLACEMENTS = [
     ('field-call', lambda s: "x=f'{a(" + lit(s) + ',' + lit(s) + ")}'"),
     ('field-dict', lambda s: "x=f'{ {" + lit(s) + ":1}}'"),
     ('field-compare', lambda s: "x=f'{a==" + lit(s) + "}'"),
+    ('field-in', lambda s: "x=f'{a in " + lit(s) + "}'"),
+    ('field-ifelse', lambda s: "x=f'{" + lit(s) + ' if ' + lit(s) + ' else ' + lit(s) + "}'"),
     ('spec-nested-str', lambda s: "x=f'{a:{" + lit(s) + "}}'"),
     ('nested2', lambda s: "x=f'{f\"{" + lit(s) + "}\"}'"),
     ('nested3', lambda s: "x=f'{f\"{f\"\"\"{" + lit(s) + "}\"\"\"}\"}'"),
@@ -82,10 +84,13 @@ BYTES_PLACEMENTS = [
     ('bytes-after-kw', lambda b: 'def f():\n return ' + repr(b)),
     ('field-bytes', lambda b: "x=f'{" + repr(b) + "}'"),
     ('field-bytes-sub', lambda b: "x=f'{a[" + repr(b) + "]}'"),
+    ('field-bytes-in', lambda b: "x=f'{a in " + repr(b) + "}'"),
+    ('field-bytes-ifelse', lambda b: "x=f'{" + repr(b) + ' if ' + repr(b) + ' else ' + repr(b) + "}'"),
+    ('field-bytes-not', lambda b: "x=f'{not " + repr(b) + "}'"),
     ('nested2-bytes', lambda b: "x=f'{f\"{" + repr(b) + "}\"}'"),
 ]
 
-HEAVY = set(['field-call', 'nested3', 'nested2', 'spec-nested-str', 'field-dict', 'field-compare', 'field-str-conv', 'nested2-text',
+HEAVY = set(['field-in', 'field-ifelse', 'field-bytes-in', 'field-bytes-ifelse', 'field-bytes-not', 'field-call', 'nested3', 'nested2', 'spec-nested-str', 'field-dict', 'field-compare', 'field-str-conv', 'nested2-text',
              'debug-text-after', 'eq-text-conv', 'ftext-between', 'concat-f', 'nested2-bytes', 'field-bytes-sub'])
 
 
